@@ -3,6 +3,7 @@ Helper lemmas for the literal byte-vector theorems of C06 (audit follow-up): sta
 `List.mergeSort` (which `decide` cannot evaluate) and a Boolean form of `decode s = .ok t`. Core only.
 -/
 import Bermuda.Lemmas.CodecPy
+import Bermuda.Lemmas.CodecLayout
 namespace Bermuda.Codec
 
 /-- the sorted key list of a concrete triangle, given ANY sorted permutation `L` of its keys
@@ -39,6 +40,19 @@ def decodesTo (s : Bytes) (t : RawTriangle) : Bool :=
 
 theorem decode_of_decodesTo {s : Bytes} {t : RawTriangle} (h : decodesTo s t = true) : decode s = .ok t := by
   unfold decodesTo at h
+  split at h
+  · rename_i r hr; rw [hr, of_decide_eq_true h]
+  · cases h
+
+/-- `decodeLayout s = .ok t` as a Boolean -/
+def layoutDecodesTo (s : Bytes) (t : RawTriangle) : Bool :=
+  match decodeLayout s with
+  | .ok r => decide (r = t)
+  | .error _ => false
+
+theorem decodeLayout_of_decodesTo {s : Bytes} {t : RawTriangle} (h : layoutDecodesTo s t = true) :
+    decodeLayout s = .ok t := by
+  unfold layoutDecodesTo at h
   split at h
   · rename_i r hr; rw [hr, of_decide_eq_true h]
   · cases h
